@@ -308,7 +308,7 @@ def _rebinds(fa, name, a, b):
 
 
 CLAIM = {
-    "text": "Decides the gating and hand-out discipline every pool relies on: the three populate implementations (analytic, rejection, flow) each store the pool, its log-prior from model.batch_evaluate_log_prior of the pool's own rows (directly or through a helper whose body is checked), its log-likelihood from model.batch_evaluate_log_likelihood(self.samples) and a fresh permutation of exactly the pool rows before setting populated, and never touch the pool afterwards; indices are only assigned empty / a permutation and consumed by pop() in draw(), which returns the row at the popped index and marks an exhausted pool unpopulated; flow-generated points returned in physical space are exactly the outputs of check_prior_bounds (single in_bounds mask); INS draws pass an in_unit_hypercube mask, then the prior evaluation, then a finite-prior mask before they are appended / returned; every likelihood-evaluation site outside Model is in a reviewed table naming the gate in front of it; and (R-PAIR) arrays describing the same rows are always masked / indexed together - which found and repaired an IndexError in FlowProposal.backward_pass.",
+    "text": "Decides the gating and hand-out discipline every pool relies on: the three populate implementations (analytic, rejection, flow) each store the pool, its log-prior from model.batch_evaluate_log_prior of the pool's own rows (directly or through a helper whose body is checked), its log-likelihood from model.batch_evaluate_log_likelihood(self.samples) and a fresh permutation of exactly the pool rows before setting populated, and never touch the pool afterwards; indices are only assigned empty / a permutation and consumed by pop() in draw(), which returns the row at the popped index and marks an exhausted pool unpopulated; flow-generated points returned in physical space are exactly the outputs of check_prior_bounds (single in_bounds mask); INS draws pass an in_unit_hypercube mask, then the prior evaluation, then a finite-prior mask before they are appended / returned; every likelihood-evaluation site outside Model is in a reviewed table naming the gate in front of it; and (R-PAIR) arrays describing the same rows are always masked / indexed together - which found and repaired an IndexError in FlowProposal.backward_pass. The three rejection steps have the documented shape (weights = log prior - log proposal density of the same points, normalised by the (running) maximum, one uniform per point, pool = accepted rows); the prime-space prior bounds - the only prior gate of the x'-prior path - are recomputed after every write of the rescaling bounds; pools are stored in canonical field order.",
     "note": "Does not decide that the pool is distributed as the prior restricted to the contour (statistical), the exact pool size, or latent-contour membership (numeric). Row classes are inferred from a table of length-preserving callees (sa/rules/pair.py); arrays of unrelated origin are assumed compatible.",
 }
 
